@@ -314,11 +314,15 @@ if src:
     lines = lines[: 2 * per]
 else:
     frames = [IOData(atnums=[8, 1, 1], atcoords=np.arange(9.0).reshape(3, 3) + i, title=f"frame {{i}}", bonds=np.array([[0, 1, 1], [0, 2, 1]]), atcharges={{"mol2charges": np.zeros(3)}}) for i in range(2)]
-    fn = os.path.join(tempfile.mkdtemp(), "t." + fmt)
+    _d = tempfile.mkdtemp()
+    __import__("atexit").register(__import__("shutil").rmtree, _d, True)
+    fn = os.path.join(_d, "t." + fmt)
     dump_many(frames, fn, fmt=fmt)
     lines = open(fn).read().splitlines(keepends=True)
     per = len(lines) // 2
-fn = os.path.join(tempfile.mkdtemp(), "cut." + fmt)
+_d = tempfile.mkdtemp()
+__import__("atexit").register(__import__("shutil").rmtree, _d, True)
+fn = os.path.join(_d, "cut." + fmt)
 open(fn, "w").write("".join(lines[: per + max(2, per // 2)]))
 with warnings.catch_warnings(record=True) as w:
     warnings.simplefilter("always")
